@@ -357,7 +357,68 @@ func Deflate(b []byte) []byte {
 	return buf.Bytes()
 }
 
-// Inflate is the reference decoder for what messageview.Decode promises.
+// cuts splits b into 2-3 pieces at fixed fractions (deterministic: Encoded is called repeatedly).
+func cuts(b []byte) [][]byte {
+	switch {
+	case len(b) < 2:
+		return [][]byte{b, nil}
+	case len(b) < 9:
+		return [][]byte{b[:len(b)/2], b[len(b)/2:]}
+	}
+	i, j := len(b)/3, len(b)-len(b)/4
+	return [][]byte{b[:i], b[i:j], b[j:]}
+}
+
+// GzipVariant: "multi" = one gzip member per piece, concatenated; "hdr" = one member with extra,
+// name and comment header fields; "flush" = one member, Flush between the pieces.
+func GzipVariant(b []byte, kind string) []byte {
+	var buf bytes.Buffer
+	switch kind {
+	case "multi":
+		for _, p := range cuts(b) {
+			w := gzip.NewWriter(&buf)
+			w.Write(p)
+			w.Close()
+		}
+	case "hdr":
+		w := gzip.NewWriter(&buf)
+		w.Extra = []byte{'v', 'f', 2, 0, 1, 2}
+		w.Name = "body.bin"
+		w.Comment = "verif"
+		w.Write(b)
+		w.Close()
+	default:
+		w := gzip.NewWriter(&buf)
+		for _, p := range cuts(b) {
+			w.Write(p)
+			w.Flush()
+		}
+		w.Close()
+	}
+	return buf.Bytes()
+}
+
+// DeflateVariant: "flush" = Flush between the pieces (sync markers); "stored" = no compression
+// (stored blocks only).
+func DeflateVariant(b []byte, kind string) []byte {
+	var buf bytes.Buffer
+	level := flate.DefaultCompression
+	if kind == "stored" {
+		level = flate.NoCompression
+	}
+	w, _ := flate.NewWriter(&buf, level)
+	for _, p := range cuts(b) {
+		w.Write(p)
+		if kind == "flush" {
+			w.Flush()
+		}
+	}
+	w.Close()
+	return buf.Bytes()
+}
+
+// Inflate is the reference decoder for what messageview.Decode promises: what a client of the
+// origin sees (gzip.Reader reads every member of a multi-member body, Go's default).
 func Inflate(enc string, b []byte) ([]byte, error) {
 	switch enc {
 	case "gzip":
@@ -584,7 +645,7 @@ func ExpandBody(tok string) ([]byte, bool) {
 	}
 	seed, e1 := strconv.ParseUint(p[3], 10, 64)
 	n, e2 := strconv.Atoi(p[4])
-	if e1 != nil || e2 != nil || n < 0 || n > 64<<20 {
+	if e1 != nil || e2 != nil || n < 0 || n > 96<<20 {
 		return nil, false
 	}
 	b := Payload(core.NewRand(seed), p[2], n)
